@@ -21,6 +21,11 @@ type ZZValSpec struct {
 
 var zzMaxU32 = big.NewInt(4294967295)
 
+// zzDigitAddrs: external addresses whose hex digits are all 0-9. The text order of checksummed addresses depends
+// on the EIP-55 letter case, which is derived from keccak (uninterpreted in the engine): a counterexample that
+// hinges on letter case could not be replayed natively. Digit-only addresses have one spelling.
+var zzDigitAddrs bool
+
 // ZZValidators: n validators with symbolic operator, power, bonded flag and registered address (possibly none).
 func ZZValidators(env *ZZEnv, chain types.ChainID, n int, powerBound uint64) []ZZValSpec {
 	return ZZValidatorsOpt(env, chain, n, powerBound, true)
@@ -38,7 +43,13 @@ func ZZValidatorsOpt(env *ZZEnv, chain types.ChainID, n int, powerBound uint64, 
 		}
 		registered := withKeys && vrt.Bool("registered"+s)
 		if registered {
-			v.Ext = common.BytesToAddress(vrt.Bytes("ext"+s, 20))
+			eb := vrt.Bytes("ext"+s, 20)
+			if zzDigitAddrs {
+				for _, x := range eb {
+					vrt.Assume(x>>4 <= 9 && x&15 <= 9)
+				}
+			}
+			v.Ext = common.BytesToAddress(eb)
 			vrt.Assume(v.Ext != (common.Address{}))
 		}
 		for _, o := range vs {
@@ -68,7 +79,18 @@ func ZZ_C09_SignerSet() {
 	if vrt.Thorough() {
 		n, pb = 3, 12
 	}
+	zzDigitAddrs = true
 	vs := ZZValidators(env, chain, n, pb)
+	zzDigitAddrs = false
+	// large stakes (total above 2^32-1): different stakes can normalise to the same published power, so the order
+	// of ties is decided on published powers, not on stakes. Concrete stakes keep the division out of the solver.
+	if vrt.Bool("large.stakes") {
+		for i := range vs {
+			p := []int64{5_000_000_000_001, 5_000_000_000_000, 4_999_999_999_999}[i%3]
+			vs[i].Power = p
+			env.Staking.Vals[i].Power = p
+		}
+	}
 	// the first validator may have been jailed earlier in this block: off the power index, last power still recorded
 	if vs[0].Bonded && vrt.Bool("jailedThisBlock0") {
 		env.Staking.Vals[0].OffIndex = true
